@@ -2115,6 +2115,9 @@ class SSHConnection(SSHPacketHandler, asyncio.Protocol):
 
         self.logger.debug2('Remaining auth methods: %s', methods or 'None')
 
+        if self._auth:
+            self._auth.cancel()
+
         self._auth = None
         self.send_packet(MSG_USERAUTH_FAILURE, NameList(methods),
                          Boolean(partial_success))
